@@ -22,7 +22,8 @@ except ImportError:
 
 class Pickler:
     PickleError = pickle.PickleError
-    UnpicklingError = (pickle.UnpicklingError, TypeError)
+    # bytes that are not a pickle (truncated or foreign data, a bit field) are reported with more than one class
+    UnpicklingError = (pickle.UnpicklingError, TypeError, EOFError, IndexError, ValueError)
 
     @staticmethod
     def loads(value: bytes) -> Value:
